@@ -193,7 +193,7 @@ class Data:
                 raise ValueError(f'duplicate {name}: {items!r}')
 
         if not set(objects).isdisjoint(properties):
-            common = set(objects) & set(properties)
+            common = [o for o in objects if o in set(properties)]
             raise ValueError(f'objects and properties overlap: {common!r}')
 
         if (len(bools) != len(objects)
